@@ -73,6 +73,13 @@ claim("C08", "other",
       "Who-may-call census over everything reachable from Evaluate/Execute: no struct-field reflection, whole-value comparison or interface equality (rule validated on every run against a positive-control package); the only entries into pointerstructure are Pointer.Get/String and Parse; both Get sites carry the evaluator's tag name and hook, which travel creation -> Evaluator -> every Evaluate -> every sub-evaluation (C05/C18 rules imported); no comparator for Struct. Does not decide pointerstructure.getStruct's own filtering.",
       "§4 C08", "who-may-call census with positive control + single-gateway census + imported gateway-config/pipeline rules")
 
+claim("C12", "other",
+      "Ownership/effect census: every Store, map update, append, copy, in-place sort, reflect mutator, goroutine start and foreign call in the functions reachable from Evaluate/Execute and from the constructors is classified by the provenance of the memory it can write. Evaluation path: only local allocations, memory made in the same function, per-call option structs, nil-based/fresh-copy appends; creation path: the parser object of newParser, the tree under construction (actions + regexp memo before publication), locals; no package variable assigned outside init; foreign callees on a documented read-only/concurrency-safe list; tree never modified after creation. With no goroutines and no synchronisation in the library this is race freedom; sequential-equivalence follows from C13. Not decided: races inside dependencies/hooks, caller-side mutation of the datum.",
+      "§4 C12", "ownership/effect analysis over the VTA call graph (provenance classification of every write site)")
+claim("C13", "other",
+      "The effect census of C12 on the evaluation path (datum, evaluator, filter and tree are only read; reflect mutators only on MakeSlice/MakeMap/Append-rooted values), tree-integrity census, no writer of Evaluator/Filter fields outside the constructors, Filter returns a fresh container (C17 shape imported), Expression() returns the field whose only writer stores CreateEvaluator's expression parameter itself (also the string parsed). Hence no carried state and the next call equals a fresh evaluator's. Not decided: mutation by a user hook.",
+      "§4 C13", "effect census + field-write census + def-use check of Expression()")
+
 def main():
     checks, nas = [], []
     for id in sorted(P):
